@@ -515,6 +515,62 @@ Proof.
   - intros Ha. apply converges_shift; [apply Z; exact Ha | intros; apply A; exact Ha].
 Qed.
 
+(* ------------------------------------------------------------ op-assign whose right-hand side reads the place *)
+Notation op_assign_store := (op_assign_store brun crun diter).
+
+(* x f= rhs, any store, rhs (and nothing else) an arbitrary expression of the store: the place
+   ends up holding f(old value, value of rhs in the OLD store) *)
+Lemma opassign_store_ok : forall n (S : Type) (get : S -> outcome val) (set : S -> val -> outcome S)
+    vnull (s0 s1 s2 : S) f (rhs : S -> expr) x0 b r,
+  get s0 = Ok x0 -> eval n (rhs s0) = Ok b -> set s0 vnull = Ok s1 ->
+  run n f [x0; b] = Ok r -> set s1 r = Ok s2 ->
+  op_assign_store n get set vnull s0 (fun _ => Fv f) rhs = (s2, Ok tt).
+Proof.
+  intros n S get set vnull s0 s1 s2 f rhs x0 b r Hg Hr Hd Hc Ha.
+  unfold Apply.op_assign_store. rewrite Hg. unfold Fv. rewrite eval_val, Hr, Hd.
+  rewrite run2_is_run, Hc, Ha. reflexivity.
+Qed.
+
+(* if the right-hand side fails nothing has been dropped yet; if the call fails the place has *)
+Lemma opassign_store_failures : forall n (S : Type) (get : S -> outcome val) (set : S -> val -> outcome S)
+    vnull (s0 s1 : S) f (rhs : S -> expr) x0,
+  get s0 = Ok x0 ->
+  (is_ok (eval n (rhs s0)) = false ->
+   fst (op_assign_store n get set vnull s0 (fun _ => Fv f) rhs) = s0 /\
+   is_ok (snd (op_assign_store n get set vnull s0 (fun _ => Fv f) rhs)) = false) /\
+  (forall b, eval n (rhs s0) = Ok b -> set s0 vnull = Ok s1 -> is_ok (run n f [x0; b]) = false ->
+   fst (op_assign_store n get set vnull s0 (fun _ => Fv f) rhs) = s1 /\
+   is_ok (snd (op_assign_store n get set vnull s0 (fun _ => Fv f) rhs)) = false).
+Proof.
+  intros n S get set vnull s0 s1 f rhs x0 Hg. split.
+  - intros H. unfold Apply.op_assign_store. rewrite Hg. unfold Fv. rewrite eval_val.
+    destruct (eval n (rhs s0)); try discriminate; split; reflexivity.
+  - intros b Hr Hd H. unfold Apply.op_assign_store. rewrite Hg. unfold Fv. rewrite eval_val, Hr, Hd.
+    rewrite run2_is_run. destruct (run n f [x0; b]); try discriminate; split; reflexivity.
+Qed.
+
+(* a plain variable: x f= rhs(x) leaves x = f(x0, rhs(x0)), the value of the plain call f(x0, b0) *)
+Lemma opassign_reads_x : forall n vnull f (rhs : val -> expr) x0 b r,
+  eval n (rhs x0) = Ok b -> run n f [x0; b] = Ok r ->
+  op_assign_store n (@var_get B C D) (@var_set B C D) vnull x0 (fun _ => Fv f) rhs = (r, Ok tt) /\
+  eval n (form_call f x0 b) = Ok r.
+Proof.
+  intros n vnull f rhs x0 b r Hr Hc. split.
+  - eapply opassign_store_ok; try reflexivity; eassumption.
+  - rewrite <- Hc. apply forms_agree_2.
+Qed.
+
+(* the statement with a store-independent operator and right-hand side is the old op_assign *)
+Lemma opassign_store_const : forall n vnull x op rhs r,
+  op_assign n x op rhs = Ok r <->
+  op_assign_store n (@var_get B C D) (@var_set B C D) vnull x (fun _ => op) (fun _ => rhs) = (r, Ok tt).
+Proof.
+  intros n vnull x op rhs r. unfold Apply.op_assign, Apply.op_assign_store, var_get, var_set.
+  destruct (eval n op) as [[d|l|ff]| | |]; cbn [bind]; try (split; intros H; inversion H; fail).
+  destruct (eval n rhs) as [b| | |]; cbn [bind]; try (split; intros H; inversion H; fail).
+  destruct (run2 n ff x b); split; intros H; inversion H; subst; reflexivity.
+Qed.
+
 (* ------------------------------------------------------------ packaged statements for Props/C04.v *)
 Lemma entry_points_agree : forall n f a b,
   run1 n f a = run n f [a] /\ run2 n f a b = run n f [a; b].
